@@ -1,6 +1,9 @@
 import I18n.Model.CheckPlurals
+import I18n.Generated.PluralForms
 import I18n.Driver.Util
 /- Driver for `check_plurals`:
+   research <s>: the REFERENCE regex engine (`Spec.PluralFormsRe.search`) on the live pattern's tree — compared with Python's `re`
+   parsepf <s>: the model's header reader
    run <isTemplate> <npf> <pf…> <correct: N | k c1…ck e1…ek> <nmsgs> (<obsolete> <hasPlural> <translated> <nforms> <repr>)… -/
 namespace I18n.Driver.CheckPlurals
 open I18n I18n.CheckPlurals
@@ -47,6 +50,12 @@ def handle (op : String) (args : List String) : String :=
       | .error ex => s!"err {ex.name}"
       | .ok out => "ok " ++ ";".intercalate (out.tags.map showTag) ++ " | " ++ showPre out.preimage
     | [] => "bad-op"
+  | "research", [h] =>
+    match Spec.PluralFormsRe.search Generated.PluralForms.headerRe (Driver.unhexChars h) with
+    | none => "none"
+    | some f =>
+      let g (n : Nat) : String := match f.group n with | some t => Driver.hexChars t | none => "N"
+      s!"ok {Driver.hexChars f.pre} {Driver.hexChars f.matched} {Driver.hexChars f.post} {g 1} {g 2}"
   | "parsepf", [h] =>
     match parsePluralForms (Driver.unhexChars h) with
     | .ok n _ lj rj => s!"ok {n} {Driver.hexChars lj} {Driver.hexChars rj}"
